@@ -302,6 +302,22 @@ def _run_concrete(desc, V):
                 for k, v in c.items():
                     if k != K:       # graded mode stores the whole grade: every other blade must carry 0
                         claims.append(Eq(f'blades-other[{sp},{k}]', v, 0))
+    if d >= 7:
+        # lazily created blades: whatever spelling is asked for FIRST, every later spelling has its own sign
+        rng_ = random.Random(d * 13 + alg.start_index)
+        ks = [k for k in alg.bin2canon if bin(k).count('1') in (2, 3)]
+        for K in rng_.sample(ks, 6):
+            w = alg.bin2canon[K][1:]
+            odd = w[1] + w[0] + w[2:]
+            for sp in ('e' + odd, 'e' + w, 'e' + odd, 'e' + w[::-1]):
+                s_ref, k_ref = km.spelling(sp)
+                c = coeffs(alg.blades[sp])
+                claims.append(Eq(f'lazy-blades[{sp}]', c.get(K, 0), s_ref))
+            prod = alg.blades['e' + w[0]]
+            for ch in w[1:]:
+                prod = prod * alg.blades['e' + ch]
+            pc = coeffs(prod)
+            claims.append(Eq(f'lazy-blades[{w}]=ordered-product', coeffs(alg.blades['e' + w]).get(K, 0), pc.get(K, 0)))
     if desc.get('blade_products') and d <= 5:
         # products of basis blades through the public operator (graded blades store whole grades)
         names = list(alg.canon2bin.items())
